@@ -87,28 +87,29 @@ Proof. exact jwks_public_only. Qed.
 Print Assumptions C16_jwks_public_only.
 
 (** all histories (any number of Execute / reload / JWKS operations, any files, any
-    configuration, token cache on or off): outside the inputs of C16-F1 every
+    configuration, token cache on or off, other key holders in the registry): every
     observation of the run is what the specification demands — every token handed out
-    verifies against the key set served at that moment, names and is signed by the
-    then active key, carries the system claims; every JWKS answer is the public view of
-    the last accepted store; unusable files change nothing *)
+    (also a reused one) verifies against the key set served at that moment, names and is
+    signed by the then active key, carries the system claims; every JWKS answer is the
+    public view of the last accepted store (and of the other holders); unusable files
+    change nothing.  [run true] is the tree as it is now, i.e. with the repair of C16-F1
+    (fix: commit d9caf75, the token cache key covers the key itself). *)
 Theorem C16_run_meets_spec : forall c f ops,
+  run_ok c f ops (fst (run true c f ops)) (snd (run true c f ops)) = true.
+Proof. exact run_meets_spec_fixed. Qed.
+Print Assumptions C16_run_meets_spec.
+
+(** the same for the pinned (unrepaired) tree outside the inputs of C16-F1 ... *)
+Theorem C16_run_meets_spec_pinned : forall c f ops,
   guard_F1 c f ops = false ->
   run_ok c f ops (fst (run false c f ops)) (snd (run false c f ops)) = true.
 Proof. exact run_meets_spec. Qed.
-Print Assumptions C16_run_meets_spec.
+Print Assumptions C16_run_meets_spec_pinned.
 
-(** with the repair proposed in fixes/C16-F1.diff (the token cache key also covers the
-    key itself) the same holds for all histories, without any guard *)
-Theorem C16_run_meets_spec_repaired : forall c f ops,
-  run_ok c f ops (fst (run true c f ops)) (snd (run true c f ops)) = true.
-Proof. exact run_meets_spec_fixed. Qed.
-Print Assumptions C16_run_meets_spec_repaired.
-
-(** C16-F1: with token reuse, a reload that keeps key id and algorithm but replaces the
-    key lets the finalizer hand out a token of the replaced key, which does not verify
-    against the key set published at that moment *)
-Theorem C16_F1_refuted :
+(** ... and C16-F1 itself, as it was: with token reuse, a reload that keeps key id and
+    algorithm but replaces the key lets the finalizer hand out a token of the replaced
+    key, which does not verify against the key set published at that moment *)
+Theorem C16_F1_pinned_refuted :
   exists c f ops t,
     guard_F1 c f ops = true /\
     nth_error (snd (run false c f ops)) 3 = Some (XToken t false) /\
@@ -116,13 +117,13 @@ Theorem C16_F1_refuted :
     t_key t = Priv (r_key (f1_entry 10)) /\
     run_ok c f ops (fst (run false c f ops)) (snd (run false c f ops)) = false.
 Proof. exact F1_refuted. Qed.
-Print Assumptions C16_F1_refuted.
+Print Assumptions C16_F1_pinned_refuted.
 
-(** non-vacuity of C16_run_meets_spec: reuse on, a reload rotates the active key *)
+(** non-vacuity: reuse on, another key holder, a reload rotates the active key *)
 Theorem C16_nonvacuous :
   guard_F1 nv_cfg (PemOk [nv_entry 3 "old"]) nv_ops = false /\
   exists t1 t2,
-    snd (run false nv_cfg (PemOk [nv_entry 3 "old"]) nv_ops) =
+    snd (run true nv_cfg (PemOk [nv_entry 3 "old"]) nv_ops) =
       [XToken t1 true; XToken t1 true; XDone; XToken t2 true;
        XJwks [spec_jwk (nv_entry 5 "other"); spec_jwk (nv_entry 4 "new"); spec_jwk (nv_entry 3 "old")]] /\
     t_kid t1 = "old" /\ t_kid t2 = "new" /\ t_alg t2 = "PS384" /\
